@@ -130,16 +130,19 @@ func c05NT(c fsCase) (bool, []string) {
 	if c.WithErrors {
 		cl = append(cl, "with_errors")
 	}
+	if c.RefuseHow != "" && c.Refused > 0 {
+		cl = append(cl, "refused_by_"+c.RefuseHow)
+	}
 	return nt, cl
 }
 
-const c05Rule = "outage scripts: fault (kind x direction x frame x position) -> k in 0..90 refused redials -> server reachable again -> optional second fault on the new connection; backoff min 1-20 ms / max 5-100 ms; {reconnect, no-reconnect} x {retry-tagged, untagged} x {error mapping on, off}; plus direct generation of (min, max, attempt) for the backoff function over [1us,1h] x [0,10^6]. Non-trivial = at least one failed redial before heal, or a second fault, or an outage longer than 75 attempts; distinct by descriptor hash"
+const c05Rule = "outage scripts: fault (kind x direction x frame x position) -> k in 0..90 refused redials (TCP reset, or an HTTP 503 / plain 200 answer instead of the protocol switch) -> server reachable again -> optional second fault on the new connection; backoff min 1-20 ms / max 5-100 ms; {reconnect, no-reconnect} x {retry-tagged, untagged} x {error mapping on, off}; plus direct generation of (min, max, attempt) for the backoff function over [1us,1h] x [0,10^6]. Non-trivial = at least one failed redial before heal, or a second fault, or an outage longer than 75 attempts; distinct by descriptor hash"
 
 func TestC05(t *testing.T) {
 	rec := NewRec("C05", c05Rule)
 	defer rec.Finish(t)
 	rec.EnableJournal()
-	rec.RequireClass("refused_redials", "long_outage", "double_fault", "no_reconnect", "with_errors", "has_retry", "backoff_pure")
+	rec.RequireClass("refused_by_http503", "refused_redials", "long_outage", "double_fault", "no_reconnect", "with_errors", "has_retry", "backoff_pure")
 
 	run := func(ft failer, c fsCase) {
 		nt, cl := c05NT(c)
@@ -240,6 +243,12 @@ func TestC05(t *testing.T) {
 			run(t, fsCase{Calls: base, Fault: &Fault{Dir: "c2s", Frame: 0, Pos: "after", Kind: "fin"}, NoReconnect: true})
 			run(t, fsCase{Calls: base, Fault: &Fault{Dir: "s2c", Frame: 1, Pos: "mid", Kind: "rst"}, NoReconnect: true, WithErrors: true})
 			run(t, fsCase{Calls: base, Fault: &Fault{Dir: "s2c", Frame: 1, Pos: "before", Kind: "blackhole"}, Refused: 2, BackoffMinMs: 2, BackoffMaxMs: 8})
+			// redials that reach an HTTP endpoint which is not (yet) the service
+			for _, how := range []string{"http503", "http200"} {
+				for _, r := range []int{1, 4} {
+					run(t, fsCase{Calls: base, Fault: &Fault{Dir: "s2c", Frame: 0, Pos: "after", Kind: "rst"}, Refused: r, RefuseHow: how, BackoffMinMs: 2, BackoffMaxMs: 10, WithErrors: r == 4})
+				}
+			}
 		}
 	})
 
@@ -266,6 +275,9 @@ func TestC05(t *testing.T) {
 		}
 		if c.Refused > 10 {
 			c.BackoffMinMs, c.BackoffMaxMs = 1, 5
+		}
+		if c.Refused > 0 {
+			c.RefuseHow = rapid.SampledFrom([]string{"", "", "http503", "http200"}).Draw(rt, "refusehow")
 		}
 		c.WithErrors = rapid.Bool().Draw(rt, "witherrors")
 		c.NoReconnect = rapid.IntRange(0, 5).Draw(rt, "noreconnect") == 0
